@@ -486,6 +486,10 @@ pub struct BrokenDownTime {
     second: Option<t::Second>,
     subsec: Option<t::SubsecNanosecond>,
     offset: Option<Offset>,
+    // Set only when parsing `%s`. A Unix timestamp denotes a precise
+    // instant on its own, and thus takes precedence over the civil
+    // fields and the offset when extracting an instant.
+    timestamp: Option<Timestamp>,
     // Used to confirm that it is consistent
     // with the date given. It usually isn't
     // used to pick a date on its own, but can
@@ -879,6 +883,19 @@ impl BrokenDownTime {
         &self,
         db: &TimeZoneDatabase,
     ) -> Result<Zoned, Error> {
+        // If `%s` was parsed, then we already have a precise instant. The
+        // offset or time zone only says how to interpret it, and does not
+        // change which instant it is.
+        if self.timestamp.is_some() {
+            let ts = self.to_timestamp()?;
+            return match (self.offset, self.iana_time_zone()) {
+                (_, Some(iana)) => Ok(ts.to_zoned(db.get(iana)?)),
+                (Some(offset), None) => {
+                    Ok(ts.to_zoned(TimeZone::fixed(offset)))
+                }
+                (None, None) => Ok(ts.to_zoned(TimeZone::UTC)),
+            };
+        }
         let dt = self
             .to_datetime()
             .context("datetime required to parse zoned datetime")?;
@@ -937,6 +954,20 @@ impl BrokenDownTime {
     /// ```
     #[inline]
     pub fn to_timestamp(&self) -> Result<Timestamp, Error> {
+        // If `%s` was parsed, then it is the instant, regardless of any
+        // offset. The only thing that can be added to it is a fractional
+        // second (from `%f` or `%.f`).
+        if let Some(timestamp) = self.timestamp {
+            let subsec = self.subsec.map_or(0, |n| n.get());
+            return Timestamp::new(timestamp.as_second(), subsec)
+                .with_context(|| {
+                    err!(
+                        "parsed Unix timestamp {timestamp} with fractional \
+                         nanoseconds {subsec}, but combining them is outside \
+                         Jiff's supported timestamp range",
+                    )
+                });
+        }
         let dt = self
             .to_datetime()
             .context("datetime required to parse timestamp")?;
